@@ -25,6 +25,8 @@ Fixpoint u (s : string) : ustring :=
   | String a rest => N_of_ascii a :: u rest
   end.
 
+Arguments u s%string.
+
 Definition hexdigit (n : N) : ascii :=
   if n <? 10 then ascii_of_N (48 + n) else ascii_of_N (55 + n).
 
